@@ -118,3 +118,25 @@ def resolveChainOld : List GClass → List GTy → List (String × GTy)
     resolveChainOld rest (substL ((paramsByAppearance c).zip args) c.baseArgs) ++ substFields (c.params.zip args) c.fields
 
 end Api.Generics
+
+namespace Api.Generics
+
+/-! ### fields re-annotated in a subclass
+
+`resolve_type_hints` fills a dictionary while walking the hierarchy from the root down to the class: a name declared again in a subclass keeps the position of
+its first declaration and takes the type of the *most derived* declaration. -/
+
+/-- `hints[name] = tp` on an association list kept in insertion order -/
+def setHint (hints : List (String × GTy)) (name : String) (tp : GTy) : List (String × GTy) :=
+  if hints.any (fun p => p.1 == name) then hints.map (fun p => if p.1 == name then (p.1, tp) else p) else hints ++ [(name, tp)]
+
+def hintsOf (fields : List (String × GTy)) : List (String × GTy) := fields.foldl (fun h p => setHint h p.1 p.2) []
+
+/-- what `resolve_type_hints(X[args])` returns -/
+def resolveHints (cs : List GClass) (args : List GTy) : List (String × GTy) := hintsOf (resolveChain cs args)
+
+/-- the reading the seeded changes `C01-13` / `C13-14` produce: a name already resolved is skipped (the root's annotation wins) -/
+def hintsOfFirstWins (fields : List (String × GTy)) : List (String × GTy) :=
+  fields.foldl (fun h p => if h.any (fun q => q.1 == p.1) then h else h ++ [p]) []
+
+end Api.Generics
